@@ -38,6 +38,7 @@ func registerMoreOps(w *Workload) {
 	w.ops["unjail_validator"] = w.opUnjailValidator
 	w.ops["cancel_unbonding"] = w.opCancelUnbonding
 	w.ops["tie_reports"] = w.opTieReport
+	w.ops["tie_vote"] = w.opTieVote
 }
 
 // ---------------------------------------------------------------- views used by the workload
@@ -827,6 +828,41 @@ func (w *Workload) opTieReport(h int64) (*Intent, bool) {
 	for _, i := range w.r.Perm(len(reps)) {
 		if w.usable(reps[i].Actor) {
 			return w.newIntent(reps[i].Actor, MsgSpec{K: "submit_value", Q: q, V: fmt.Sprintf("%064x", 1+i%2)}), true
+		}
+	}
+	return nil, false
+}
+
+// opTieVote steers a dispute into an exact tie of the group fractions: two token holders with identical
+// balances (and identical fee history) vote opposite ways and nobody else votes.
+func (w *Workload) opTieVote(h int64) (*Intent, bool) {
+	tw := w.g.C.Cfg.Twins
+	if len(tw) != 2 {
+		return nil, false
+	}
+	a0, a1 := w.acc().ActorOfAcct(tw[0]), w.acc().ActorOfAcct(tw[1])
+	voters := w.v.Voters()
+	for _, d := range w.v.Disputes() {
+		if d.D.DisputeStatus != disputetypes.Voting {
+			continue
+		}
+		n, v0, v1 := 0, false, false
+		for _, vr := range voters {
+			if vr.ID == d.D.DisputeId {
+				n++
+				if string(vr.Voter) == string(w.acc().Addr(a0)) {
+					v0 = true
+				}
+				if string(vr.Voter) == string(w.acc().Addr(a1)) {
+					v1 = true
+				}
+			}
+		}
+		if n == 0 && w.acc().Free(a0) && !w.busy[a0] {
+			return w.newIntent(a0, MsgSpec{K: "vote", U: d.D.DisputeId, E: 1}), true
+		}
+		if n == 1 && v0 && !v1 && w.acc().Free(a1) && !w.busy[a1] {
+			return w.newIntent(a1, MsgSpec{K: "vote", U: d.D.DisputeId, E: int32(Pick(w.r, []int{2, 0}))}), true
 		}
 	}
 	return nil, false
